@@ -3,6 +3,7 @@ package main
 import (
 	"fmt"
 	"math/rand"
+	"reflect"
 	"regexp"
 	"sort"
 	"strconv"
@@ -236,6 +237,34 @@ func streamEq(o *Out, r *rand.Rand, n int, thorough bool) {
 			}
 			if a != b || c != b {
 				o.Fail(Failure{Oracle: "in-uses-eq", Key: "in-typed-differs:" + ln, Input: desc, Detail: fmt.Sprintf("`item in %s` is %v (script-made list: %v) but some element == item is %v", ln, a, c, b)})
+			}
+		}
+	}
+	// containers compare structurally, whatever storage they share: views of one list (same start, different lengths; empty
+	// tails), a map and itself, separately built equal lists - against Go's reflect.DeepEqual on the same values
+	viewSrcs := []string{"a", "a[:1]", "a[:2]", "a[:3]", "a[0:2]", "a[1:]", "a[1:2]", "a[3:]", "a[:0]", "a[2:2]", "b", "b[:2]", "[1, 2]", "[]", "n[0]", "n[0][:1]", "n[1]", "mm", "mm2", "{\"k\": [1]}"}
+	setup := "a = [1, 2, 3]\nb = [1, 2, 3]\nn = [[1, 2], [1, 2]]\nmm = {\"k\": [1]}\nmm2 = mm\n"
+	for _, ls := range viewSrcs {
+		for _, rs := range viewSrcs {
+			lv := runScript(setup+ls, nil, nil)
+			rv := runScript(setup+rs, nil, nil)
+			if lv.err != nil || rv.err != nil || lv.panicked || rv.panicked {
+				o.Fail(Failure{Oracle: "eq-template", Key: "eq-view-source", Input: ls + " / " + rs, Detail: fmt.Sprint(lv.err, rv.err)})
+				continue
+			}
+			want := reflect.DeepEqual(lv.val, rv.val)
+			for _, form := range []struct{ name, src string }{
+				{"==", ls + " == " + rs}, {"!=", "!(" + ls + " != " + rs + ")"}, {"in", ls + " in [0, " + rs + "]"},
+				{"switch", "switch " + ls + " {\ncase " + rs + ":\ntrue\ndefault:\nfalse\n}"},
+			} {
+				out := runScript(setup+form.src, nil, nil)
+				o.Sum.Evaluations++
+				o.Sum.Hist["views:"+form.name]++
+				got, ok := asBool(out)
+				if !ok || got != want {
+					o.Fail(Failure{Oracle: "containers-compare-structurally", Key: "eq-views:" + form.name, Input: setup + form.src,
+						Detail: fmt.Sprintf("the operands are %v and %v: structurally equal = %v, the script says %v", lv.val, rv.val, want, out.answer(vals.Encode))})
+				}
 			}
 		}
 	}
